@@ -73,6 +73,12 @@ func checkC03ExprR(c c03Expr, reached *bool) *evid.Fail {
 			res.Msg = fmt.Sprintf("%q with %v: %s", c.Text, c.Vars, res.Msg)
 			return
 		}
+		// explicit functions with the default variables (each of the two collections may be nil on its own)
+		v0, err0 := calc.EvaluateUsingVariablesAndFunctions(nil, userFunctions(0))
+		if res = exactlyOne("EvaluateUsingVariablesAndFunctions(nil, functions)", v0, err0); res != nil {
+			res.Msg = fmt.Sprintf("%q: %s", c.Text, res.Msg)
+			return
+		}
 		// variables whose values were cleared (explicit collection and defaults)
 		vc := makeVars(c.Vars)
 		vc.ClearValues()
@@ -760,4 +766,144 @@ func TestC03_RapidTokenLists(t *testing.T) {
 			rt.Fatalf("%v", f)
 		}
 	})
+}
+
+// ---- arrays built in every way the Variant API offers, indexed inside and outside their range -----------------
+
+type c03ArrCase struct {
+	Builder string `json:"builder"`
+	N       int    `json:"n"`
+	Index   int    `json:"index"`
+	Safe    bool   `json:"safe"`
+}
+
+var c03Builders = []string{"VariantFromArray", "SetAsArray", "NewVariant", "SetByIndex-ascending", "SetByIndex-last-first", "SetLength", "SetLength-then-fill", "Clone", "Assign"}
+
+func c03BuildArray(builder string, n int) *variants.Variant {
+	els := make([]*variants.Variant, n)
+	for i := range els {
+		els[i] = variants.VariantFromInteger(10 + i)
+	}
+	switch builder {
+	case "VariantFromArray":
+		return variants.VariantFromArray(els)
+	case "SetAsArray":
+		v := variants.EmptyVariant()
+		v.SetAsArray(els)
+		return v
+	case "NewVariant":
+		return variants.NewVariant(els)
+	case "SetByIndex-ascending":
+		v := variants.VariantFromArray(nil)
+		for i, e := range els {
+			v.SetByIndex(i, e)
+		}
+		return v
+	case "SetByIndex-last-first":
+		v := variants.VariantFromArray([]*variants.Variant{})
+		if n > 0 {
+			v.SetByIndex(n-1, els[n-1]) // everything below is filled with nulls
+		}
+		return v
+	case "SetLength":
+		v := variants.VariantFromArray(nil)
+		v.SetLength(n)
+		return v
+	case "SetLength-then-fill":
+		v := variants.VariantFromArray(nil)
+		v.SetLength(n)
+		for i := 0; i < n; i += 2 {
+			v.SetByIndex(i, els[i])
+		}
+		return v
+	case "Clone":
+		return variants.VariantFromArray(els).Clone()
+	}
+	v := variants.EmptyVariant()
+	v.Assign(variants.VariantFromArray(els))
+	return v
+}
+
+// checkC03Arr: "out-of-range indexes ... surface as errors" - and indexes in range as values - for an array of n
+// elements however it was built; membership never crashes either.
+func checkC03Arr(c c03ArrCase) *evid.Fail {
+	var res *evid.Fail
+	desc := fmt.Sprintf("array of %d elements built by %s, index %d", c.N, c.Builder, c.Index)
+	if g := guard(func() {
+		ops := opsManager(c.Safe)
+		arr := c03BuildArray(c.Builder, c.N)
+		v, err := ops.GetElement(arr, variants.VariantFromInteger(c.Index))
+		if res = exactlyOne("GetElement", v, err); res != nil {
+			return
+		}
+		inRange := c.Index >= 0 && c.Index < c.N
+		if inRange && err != nil {
+			res = evid.F("index-in-range-fails", "%s: GetElement failed with %v", desc, err)
+			return
+		}
+		if !inRange && err == nil {
+			res = evid.F("index-out-of-range-accepted", "%s: GetElement returned %s instead of an error", desc, fromVariant(v))
+			return
+		}
+		in, ierr := ops.In(arr, variants.VariantFromInteger(10))
+		if res = exactlyOne("In", in, ierr); res != nil {
+			return
+		}
+		// and through an expression with the array as a variable
+		calc := calculator.NewExpressionCalculator()
+		calc.SetVariantOperations(ops)
+		if calc.SetExpression(fmt.Sprintf("arr[%d]", c.Index)) == nil || c.Index < 0 {
+			vc := variables.NewVariableCollection()
+			vc.Add(variables.NewVariable("arr", arr))
+			if c.Index < 0 {
+				calc.SetExpression(fmt.Sprintf("arr[0 - %d]", -c.Index))
+			}
+			ev, eerr := calc.EvaluateUsingVariables(vc)
+			if res = exactlyOne("arr[i]", ev, eerr); res != nil {
+				return
+			}
+			if (eerr == nil) != inRange {
+				res = evid.F("index-expression-disagrees", "%s: the expression arr[i] gives %s, in range = %v", desc, resultRepr(ev, eerr), inRange)
+				return
+			}
+			calc.SetExpression("7 IN arr")
+			ev, eerr = calc.EvaluateUsingVariables(vc)
+			if res = exactlyOne("7 IN arr", ev, eerr); res != nil {
+				return
+			}
+			calc.SetExpression("7 NOT IN arr")
+			ev, eerr = calc.EvaluateUsingVariables(vc)
+			res = exactlyOne("7 NOT IN arr", ev, eerr)
+		}
+	}); g != nil {
+		g.Msg = desc + ": " + g.Msg
+		return g
+	}
+	if res != nil {
+		res.Msg = desc + ": " + res.Msg
+	}
+	return res
+}
+
+func init() { regReplay("C03.arr", checkC03Arr) }
+
+func TestC03_EnumArrayBuilders(t *testing.T) {
+	rec := evid.New("C03", "TestC03_EnumArrayBuilders", "C03.arr", "arrays of 0..4 elements built in nine ways (constructors, SetByIndex ascending / last index first, SetLength, clone, assign) x every index -2..n+1 x 2 managers: GetElement / arr[i] give a value inside the range and an error outside, membership returns normally; non-trivial = an index at or beyond the end, or an array with filler nulls; distinct by case")
+	rec.Exhaustive = true
+	rec.DupFree = true
+	defer finish(t, rec)
+	rec.Bounds = fmt.Sprintf("%d builders x n in 0..4 x index in -2..n+1 x 2 managers", len(c03Builders))
+	for _, b := range c03Builders {
+		for n := 0; n <= 4; n++ {
+			for i := -2; i <= n+1; i++ {
+				for _, safe := range []bool{false, true} {
+					c := c03ArrCase{b, n, i, safe}
+					rec.Case(jsonStr(c), i >= n || strings.HasPrefix(b, "SetLength") || b == "SetByIndex-last-first", func() interface{} { return c }, "builder:"+b)
+					if f := checkC03Arr(c); f != nil {
+						rec.Fail(f, c)
+					}
+				}
+			}
+		}
+	}
 }
